@@ -368,6 +368,11 @@ class Library:
                                'dereferenced"); return (%s)p; }' % (e, n, ct, e))
         f[n + '__from__nullptr_t'] = 'static inline %s %s__from__nullptr_t(nullptr_t x) { return (%s)0; }' % (ct, n, ct)
         f[n + '__get'] = 'static inline %s %s__get(%s p) { return (%s)p; }' % (e, n, ct, e)
+        # unique_ptr<T>(raw) / reset(raw) / reset(): ownership of the SAME object identity (the destructor of a replaced
+        # object is not modelled)
+        f[n + '__from__' + S(e)] = 'static inline %s %s__from__%s(%s p) { return (%s)p; }' % (ct, n, S(e), e, ct)
+        f[n + '__reset__' + S(e)] = 'static inline void %s__reset__%s(%s *u, %s p) { *u = (%s)p; }' % (n, S(e), ct, e, ct)
+        f[n + '__reset'] = 'static inline void %s__reset(%s *u) { *u = (%s)0; }' % (n, ct, ct)
         f[n + '__op_conv_bool'] = 'static inline _Bool %s__op_conv_bool(%s p) { return p != 0; }' % (n, ct)
         f[n + '__op_not'] = 'static inline _Bool %s__op_not(%s p) { return p == 0; }' % (n, ct)
         return f
